@@ -116,6 +116,14 @@ def nav_node(node, src, root, depth):
     SX.check(len(it) == len(exp_contents) and all([same_item(g, x) for g, x in zip(it, exp_contents)]), 'C04:iteration', det)
     for i in range(len(exp_contents)):
         SX.check(same_item(node[i], exp_contents[i]), 'C04:indexing', det)
+    for sl in (slice(None), slice(1, None), slice(None, None, 2), slice(-1, None)):
+        got = node[sl]
+        want = exp_contents[sl]
+        SX.check(isinstance(got, list) and len(got) == len(want) and all([same_item(g, x) for g, x in zip(got, want)]),
+                 'C04:slice-indexing', det)
+        for g in got:
+            if isinstance(g, TexNode):
+                SX.check(g.parent is node, 'C04:parent-of-slice', det)
     for view, name in ((contents, 'contents'), (children, 'children'), (allv, 'all'), (it, 'iteration')):
         for g in view:
             if isinstance(g, TexNode):
@@ -280,7 +288,8 @@ def doc_search(doc, qkind):
             res.append(search_from(r, q, src, qd))
     if qkind == 'names':
         for n in names[:6]:
-            if len(n) <= 2 or n in ('itemize', 'enumerate', 'item', 'newcommand', 'renewcommand', 'providecommand', 'equation', 'verbatim'):
+            if len(n) <= 2 or n in ('itemize', 'enumerate', 'item', 'newcommand', 'renewcommand', 'providecommand', 'equation', 'verbatim',
+                                    'section*', 'align*', 'section', 'align'):
                 got = getattr(soup, n)
                 f = soup.find(n)
                 SX.check((got is None and f is None) or (got is not None and f is not None and got.expr is f.expr),
